@@ -43,7 +43,10 @@ def ENCODED():
     import ethosu.vela.high_level_command_to_npu_op as h2n
     import ethosu.vela.high_level_command_stream_generator as gen
 
-    return [hl.Box.transform_with_strides_and_skirt, hl.Box.__init__, go.calc_padding_and_skirt, go.calc_upscaled_padding_and_skirt,
+    import ethosu.vela.npu_performance  # noqa (breaks the scheduler <-> npu_performance import cycle)
+    import ethosu.vela.scheduler as sch
+
+    return [sch.Scheduler.propose_minimal_schedule, sch.Scheduler.propose_schedule_striping, hl.Box.transform_with_strides_and_skirt, hl.Box.__init__, go.calc_padding_and_skirt, go.calc_upscaled_padding_and_skirt,
             gu.needed_total_padding, gu.calc_explicit_padding, h2n.create_padding, gen.generate_high_level_commands_for_sched_op]
 
 
@@ -445,12 +448,73 @@ def cascade(V, P, C, stride, mode, kmax, hmax, dy=1):
     return claims
 
 
-FUNCS = {"rows": rows, "cols": cols, "rows_upscaled": rows_upscaled, "area": area, "cascade": cascade}
+def stripe_proposals(V, modes, cascaded):
+    """Scheduler.propose_minimal_schedule / propose_schedule_striping on a chain of operators (stand-in scheduler ops, symbolic vertical
+    strides): the OFM stripe height proposed for a producer is at least what its consumer's stride needs, and an operator that upscales its
+    IFM by nearest-neighbour insertion only ever gets EVEN stripe heights - an odd stripe boundary makes every second stripe start on an
+    odd OFM row, where the hardware's 2x replication reads the wrong IFM row (the `rows_upscaled` lemma assumes even boundaries)."""
+    import ethosu.vela.npu_performance  # noqa (breaks the scheduler <-> npu_performance import cycle)
+    import ethosu.vela.scheduler as sch
+    from ethosu.vela.shape4d import Shape4D
+    from ethosu.vela.ethos_u55_regs.ethos_u55_regs import resampling_mode
+
+    n = len(modes)
+    MODE = {"none": resampling_mode.NONE, "nearest": resampling_mode.NEAREST, "transpose": resampling_mode.TRANSPOSE}
+    ops, recorded = [], {}
+    for i, m in enumerate(modes):
+        sy = V.int("stride_y_%d" % i, 1, 3)
+        op = _Obj(name="op%d" % i, index=i, resampling_mode=MODE[m], kernel=_Obj(stride=_Obj(y=sy, x=1)), ofm=_Obj(shape=Shape4D(1, 64, 8, 16)),
+                  ifm=_Obj(shape=Shape4D(1, 64, 8, 16)))
+
+        def csi(nng, stripe, op=op):
+            recorded.setdefault(op.name, []).append(stripe.height)
+            return _Obj(block_config=None, cycles=None, npu_weights_tensor=None, buffered_weight_tensors=[], cascade=0, stripe=stripe)
+
+        op.create_scheduler_info = csi
+        ops.append(op)
+    me = _Obj(sg=_Obj(name="sg"), sched_ops=ops, nng=None, scheduler_options=_Obj(verbose_progress=False), estimate_op_performance=lambda *a: 0)
+    cl = []
+    with core.shims((sch, {"max": core.smax, "min": core.smin})):
+        sch.Scheduler.propose_minimal_schedule(me)
+    hmin = {k: v[-1] for k, v in recorded.items()}
+    for i, op in enumerate(ops):
+        h = L(hmin[op.name])
+        need = L(ops[i + 1].kernel.stride.y) if i + 1 < n else L(1)
+        cl.append(("MIN schedule: stripe of op%d covers its consumer's vertical stride (and is the smallest such)" % i, z3.And(h >= need, h <= need + 1, h >= 1)))
+        if modes[i] == "nearest":
+            cl.append(("MIN schedule: nearest-upscaling op%d gets an even stripe height" % i, h % 2 == 0))
+    # ---- striping proposal from a final stripe; all operators in one cascade of the reference schedule (or each on its own)
+    recorded.clear()
+    ref = _Obj(cost_map={op: _Obj(buffered_weight_tensors=[], cascade=(1 if cascaded else i + 1)) for i, op in enumerate(ops)})
+    F = V.int("final_stripe_height", 1, 64)
+    if modes[-1] == "nearest":
+        V.assume(L(F) % 2 == 0)  # the caller's job for the last operator (not examined here)
+    with core.shims((sch, {"max": core.smax, "min": core.smin})):
+        sch.Scheduler.propose_schedule_striping(me, Shape4D(1, F, 8, 16), "T", ref)
+    hs = {k: v[-1] for k, v in recorded.items()}
+    for i, op in enumerate(ops):
+        h = L(hs[op.name])
+        if i + 1 < n:
+            hc = L(hs[ops[i + 1].name])
+            st = L(ops[i + 1].kernel.stride.y)
+            cl.append(("striping: producer op%d makes at least stride x (consumer stripe) rows per consumer stripe, at most one stripe row more" % i,
+                       z3.And(h >= hc * st, h <= (hc + 1) * st)))
+        if modes[i] == "nearest" and (cascaded or i == n - 1):
+            cl.append(("striping: nearest-upscaling op%d gets an even stripe height" % i, h % 2 == 0))
+    return cl
+
+
+FUNCS = {"stripe_proposals": stripe_proposals, "rows": rows, "cols": cols, "rows_upscaled": rows_upscaled, "area": area, "cascade": cascade}
 
 
 
 def instances(tier, seed):
     out = []
+    for modes in (("none", "nearest", "none"), ("nearest", "none"), ("none", "nearest"), ("nearest", "nearest", "none"), ("none", "none", "none"),
+                  ("transpose", "none")):
+        for cascaded in (0, 1):
+            out.append(dict(key="stripe_proposals/%s/%s" % ("-".join(modes), "cascade" if cascaded else "separate"), fn="stripe_proposals",
+                            params=dict(modes=list(modes), cascaded=cascaded)))
     hmax, kmax = (64, 8) if tier == "quick" else (4096, 16)
     for mode in ("SAME", "VALID", "EXPL"):
         for stride in (1, 2, 3):
